@@ -790,3 +790,50 @@ func hIsMember(c *core.Ctx, R, name string) {
 	}
 	c.Check(R, "helper-contract/"+name, fn.Pos(), why == "" && n == 1, "key membership of the second argument in the first", name+": "+why)
 }
+
+func init() {
+	reg("R46", func(c *core.Ctx) { hNoAppendOntoSizedSlice(c, "R46") })
+}
+
+// hNoAppendOntoSizedSlice: a slice made with a non-zero length already has that many (zero) elements; appending to
+// it adds further ones behind them.  Nowhere in the module is append applied to such a slice (directly or through
+// the loop phi of `l = append(l, …)`): the classic slip of turning `l[i] = x` into `l = append(l, x)` without
+// changing `make([]T, n)` into `make([]T, 0, n)` gives n spurious zero entries -- for index lists, entry 0.
+func hNoAppendOntoSizedSlice(c *core.Ctx, R string) {
+	n, bad := 0, ""
+	for _, fn := range allModFuncs(c.P) {
+		for _, b := range fn.Blocks {
+			for _, in := range b.Instrs {
+				mk, ok := in.(*ssa.MakeSlice)
+				if !ok {
+					continue
+				}
+				if k, isConst := mk.Len.(*ssa.Const); isConst && k.Value != nil && k.Int64() == 0 {
+					continue
+				}
+				n++
+				// values that are the made slice itself (not a reslice of it), through phis
+				same := map[ssa.Value]bool{mk: true}
+				work := []ssa.Value{mk}
+				for len(work) > 0 {
+					v := work[len(work)-1]
+					work = work[:len(work)-1]
+					for _, r := range *v.Referrers() {
+						switch x := r.(type) {
+						case *ssa.Phi:
+							if !same[x] {
+								same[x] = true
+								work = append(work, x)
+							}
+						case *ssa.Call:
+							if _, isApp := isBuiltinCall(x, "append"); isApp && x.Call.Args[0] == v {
+								bad += fmt.Sprintf("%s: append onto a slice made with length %s in %s; ", c.P.Pos(x.Pos()), strings.TrimSpace(mk.Len.String()), fn.String())
+							}
+						}
+					}
+				}
+			}
+		}
+	}
+	c.Check(R, "no-append-onto-sized-slice/module", token.NoPos, bad == "" && n >= 5, fmt.Sprintf("%d slices made with a length; none is appended to", n), "a list gets spurious zero entries in front: "+bad)
+}
